@@ -1,8 +1,8 @@
 package main
 
 import (
-	"github.com/polydawn/refmt"
 	"fmt"
+	"github.com/polydawn/refmt"
 	"reflect"
 	"strings"
 )
@@ -88,7 +88,127 @@ func genUnmarshal(tier string, seed uint64) {
 			rec(nil)
 		}
 	}
-	_ = r
+	// 2. renderings the marshaller produces for random values of every target, mutated at token level:
+	//    an entry repeated n times, an unknown key inserted, a token deleted / replaced, a declared length changed,
+	//    the stream truncated; and the unmutated rendering itself
+	nper := 12
+	if tier == "thorough" {
+		nper = 150
+	}
+	for _, aid := range []int{1, 2, 3, 4} {
+		for _, t := range targets {
+			k := t.Kind()
+			if k == reflect.Func || k == reflect.Chan || k == reflect.Complex64 {
+				continue
+			}
+			for i := 0; i < nper; i++ {
+				vd := genValue(r, t, genOpts{depth: 1 + r.intn(3), roundtrip: true, tagged: aid == 2 || aid == 3, cbor: true})
+				res := opMarshal([]string{fmt.Sprint(aid), fmt.Sprint(tid(t)), "0", vd})
+				f := strings.TrimPrefix(strings.Split(res, " ")[0], "I=")
+				if !strings.HasSuffix(f, "/ok") {
+					continue
+				}
+				toks := strings.Split(strings.TrimSuffix(f, "/ok"), ",")
+				if len(toks) > 0 && toks[len(toks)-1] == "" {
+					toks = toks[:len(toks)-1]
+				}
+				if len(toks) == 0 || len(toks) > 60 {
+					continue
+				}
+				emit("unmarshal %d %d %s", aid, tid(t), strings.Join(toks, ","))
+				for m := 0; m < 4; m++ {
+					mt := mutateToks(r, toks)
+					if len(mt) > 0 && len(mt) <= 120 {
+						emit("unmarshal %d %d %s", aid, tid(t), strings.Join(mt, ","))
+					}
+				}
+			}
+		}
+	}
+}
+
+// end of the subtree starting at toks[i] (exclusive)
+func subtreeEnd(toks []string, i int) int {
+	depth := 0
+	for j := i; j < len(toks); j++ {
+		b := toks[j]
+		if k := strings.LastIndex(b, "."); k >= 0 && b[0] == 't' {
+			b = b[k+1:]
+		}
+		switch {
+		case strings.HasPrefix(b, "{") || strings.HasPrefix(b, "["):
+			depth++
+		case b == "}" || b == "]":
+			depth--
+		}
+		if depth <= 0 {
+			return j + 1
+		}
+	}
+	return len(toks)
+}
+
+func mutateToks(r *rng, toks []string) []string {
+	out := append([]string{}, toks...)
+	// positions of map opens
+	var maps []int
+	for i, b := range toks {
+		if k := strings.LastIndex(b, "."); k >= 0 && b[0] == 't' {
+			b = b[k+1:]
+		}
+		if strings.HasPrefix(b, "{") {
+			maps = append(maps, i)
+		}
+	}
+	unknown := []string{"s6e6f7065", "s", "s78", "i4", "0"}
+	switch r.intn(7) {
+	case 0, 1: // repeat the first entry of a map n times, then an unknown key (or nothing)
+		if len(maps) == 0 {
+			return nil
+		}
+		m := maps[r.intn(len(maps))]
+		if m+1 >= len(toks) || toks[m+1] == "}" {
+			return append(append(append([]string{}, toks[:m+1]...), unknown[r.intn(len(unknown))], "0"), toks[m+1:]...)
+		}
+		ve := subtreeEnd(toks, m+2)
+		entry := toks[m+1 : ve]
+		n := 1 + r.intn(6)
+		res := append([]string{}, toks[:m+1]...)
+		res[m] = strings.Replace(res[m], res[m][strings.LastIndex(res[m], "{"):], "{-1", 1)
+		for i := 0; i < n; i++ {
+			res = append(res, entry...)
+		}
+		if r.chance(2, 3) {
+			res = append(res, unknown[r.intn(len(unknown))], "0")
+		}
+		return append(res, toks[ve:]...)
+	case 2: // unknown key inserted at the start of a map
+		if len(maps) == 0 {
+			return nil
+		}
+		m := maps[r.intn(len(maps))]
+		return append(append(append([]string{}, toks[:m+1]...), unknown[r.intn(len(unknown))], "0"), toks[m+1:]...)
+	case 3: // delete a token
+		i := r.intn(len(out))
+		return append(out[:i], out[i+1:]...)
+	case 4: // replace a token by one from the alphabet
+		out[r.intn(len(out))] = umAlphabet[r.intn(len(umAlphabet))]
+		return out
+	case 5: // change a declared length
+		for try := 0; try < 6; try++ {
+			i := r.intn(len(out))
+			b := out[i]
+			k := strings.LastIndexAny(b, "{[")
+			if k < 0 {
+				continue
+			}
+			out[i] = b[:k+1] + []string{"-1", "0", "1", "2", "3", "7"}[r.intn(6)]
+			return out
+		}
+		return nil
+	default: // truncate
+		return out[:r.intn(len(out))]
+	}
 }
 
 func genRemarshal(tier string, seed uint64) {
@@ -120,7 +240,11 @@ func genClone(tier string, seed uint64) {
 	for _, a := range zooAtlases() {
 		for _, t := range roundtripTypes(a) {
 			for i := 0; i < n; i++ {
-				emit("clone %d %d %s", a.id, tid(t), genValue(r, t, genOpts{depth: 1 + r.intn(4), roundtrip: true, tagged: a.id == 2 || a.id == 3, cbor: true}))
+				vd := genValue(r, t, genOpts{depth: 1 + r.intn(4), roundtrip: true, tagged: a.id == 2 || a.id == 3, cbor: true})
+				emit("clone %d %d %s", a.id, tid(t), vd)
+				if i%3 == 0 && t.Kind() != reflect.Interface {
+					emit("clonev %d %d %s", a.id, tid(t), vd)
+				}
 			}
 		}
 	}
@@ -145,6 +269,10 @@ func genPump(tier string, seed uint64) {
 			doc := []byte(sb.String())
 			if r.chance(1, 10) && len(doc) > 1 {
 				doc = doc[:r.intn(len(doc))]
+			} else if r.chance(1, 4) && len(doc) > 0 {
+				// one byte replaced: raw control characters, quotes, backslashes, invalid UTF-8, stray punctuation
+				doc = append([]byte{}, doc...)
+				doc[r.intn(len(doc))] = []byte{0x00, 0x01, 0x09, 0x0a, 0x1f, 0x22, 0x5c, 0x7f, 0x80, 0xff, ',', ':', '}', ']', '0', 'e', '-'}[r.intn(17)]
 			}
 			emit("pump json cbor nil - %s%s", hexOrDash(doc), cli)
 			if r.chance(1, 4) {
@@ -155,6 +283,9 @@ func genPump(tier string, seed uint64) {
 			genItem(r, r.intn(5), &item, false)
 			if r.chance(1, 10) && len(item) > 1 {
 				item = item[:r.intn(len(item))]
+			} else if r.chance(1, 5) && len(item) > 0 {
+				item = append([]byte{}, item...)
+				item[r.intn(len(item))] = byte(r.next())
 			}
 			emit("pump cbor json nil - %s%s", hexOrDash(item), cli)
 			if r.chance(1, 4) {
@@ -273,7 +404,9 @@ func genOrder(tier string, seed uint64) {
 		{"a", "b"}, {"b", "a", "ab"}, {"", "a", "aa", "aaa"}, {"b", "aa", "a", "ba", "c"}, {"é", "e", "z", "éa"}, {"k1", "k10", "k2", "k"},
 		{"\xff", "\x00", "a\x00", "a"}, {"zz", "y", "x", "www", "vvvv"},
 	}
-	hx := func(s string) string { return fmt.Sprintf("%x", strings.NewReplacer("\\xff", "\xff", "\\x00", "\x00").Replace(s)) }
+	hx := func(s string) string {
+		return fmt.Sprintf("%x", strings.NewReplacer("\\xff", "\xff", "\\x00", "\x00").Replace(s))
+	}
 	type target struct {
 		aid int
 		t   reflect.Type
@@ -460,6 +593,12 @@ func genHist(tier string, seed uint64) {
 				}
 				ops = append(ops, fmt.Sprintf("M|%d|%d|%s", aid, tid(t), vd))
 			case 4, 5:
+				if r.chance(1, 3) {
+					// clone into another type of similar shape: maps <-> structs, slices <-> arrays, ints <-> strings
+					t2 := types[r.intn(len(types))]
+					ops = append(ops, fmt.Sprintf("X|%d|%d|%s|%d", aid, tid(t), genValue(r, t, o), tid(t2)))
+					break
+				}
 				ops = append(ops, fmt.Sprintf("C|%d|%d|%s", aid, tid(t), genValue(r, t, o)))
 			default:
 				// an item for the unmarshaller: a valid encoding of a value of the type, or of another type (wrong kind)
@@ -481,6 +620,47 @@ func genHist(tier string, seed uint64) {
 		}
 		if len(ops) > 0 {
 			emit("hist %s %s", f, strings.Join(ops, ";"))
+		}
+	}
+	// systematic: a marshal abandoned at EVERY Write position (writer failure), then the same instance reused for
+	// values of several shapes; likewise a clone abandoned because the destination type rejects part-way
+	var shapes []reflect.Type
+	for _, v := range []interface{}{map[string]int{}, StrMap{}, TwoMaps{}, MapKeyed{}, []map[string]int{}, map[string]interface{}{}, Inner{}, []int{},
+		WithPtr{}, HasShape{}} {
+		shapes = append(shapes, reflect.TypeOf(v))
+	}
+	nonEmpty := func(t reflect.Type, o genOpts) string {
+		vd := genValue(r, t, o)
+		for try := 0; try < 8 && len(vd) < 12; try++ {
+			vd = genValue(r, t, o)
+		}
+		return vd
+	}
+	reps := 1
+	if tier == "thorough" {
+		reps = 6
+	}
+	for rep := 0; rep < reps; rep++ {
+		for _, f := range []string{"cbor", "json"} {
+			for _, aid := range []int{1, 3} {
+				o := genOpts{depth: 2, jsonSafe: f == "json", roundtrip: true, tagged: aid == 3, cbor: f == "cbor"}
+				for _, t := range shapes {
+					vd := nonEmpty(t, o)
+					n := histWriteCalls(f, aid, t, vd)
+					for k := 0; k < n && k < 40; k++ {
+						t2 := shapes[(k+rep)%len(shapes)]
+						t3 := shapes[(k+rep+3)%len(shapes)]
+						emit("hist %s M|%d|%d|%s|%d;M|%d|%d|%s;M|%d|%d|%s", f, aid, tid(t), vd, k, aid, tid(t2), nonEmpty(t2, o), aid, tid(t3), nonEmpty(t3, o))
+					}
+					for _, t2 := range shapes {
+						if t2 == t {
+							continue
+						}
+						t3 := shapes[(rep+len(vd))%len(shapes)]
+						emit("hist %s X|%d|%d|%s|%d;C|%d|%d|%s;C|%d|%d|%s", f, aid, tid(t), vd, tid(t2), aid, tid(t), nonEmpty(t, o), aid, tid(t3), nonEmpty(t3, o))
+					}
+				}
+			}
 		}
 	}
 	nf := 400
